@@ -763,3 +763,82 @@ pub fn crossing_shapes(g: &Grammar) -> Vec<String> {
     }
     out
 }
+
+/// Index-free structural rendering (S-expression with names): two grammars are the same
+/// grammar iff these strings are equal, however their tokens / rules are numbered.
+pub fn named(g: &Grammar) -> String {
+    fn rx(g: &Grammar, r: &Regex, out: &mut String) {
+        match r {
+            Regex::Tok(t, s) => out.push_str(&format!("(tok {}{})", g.tokens[*t].name, if *s { format!(" sym '{}'", g.tokens[*t].symbol.clone().unwrap_or_default()) } else { String::new() })),
+            Regex::Ref(x) => out.push_str(&format!("(ref {})", g.rules[*x].name)),
+            Regex::Concat(v) | Regex::Alt(v) | Regex::Choice(v) => {
+                out.push_str(match r {
+                    Regex::Concat(_) => "(concat",
+                    Regex::Alt(_) => "(alt",
+                    _ => "(choice",
+                });
+                for c in v {
+                    out.push(' ');
+                    rx(g, c, out);
+                }
+                out.push(')');
+            }
+            Regex::Opt(b) | Regex::Star(b) | Regex::Plus(b) => {
+                out.push_str(match r {
+                    Regex::Opt(_) => "(opt ",
+                    Regex::Star(_) => "(star ",
+                    _ => "(plus ",
+                });
+                rx(g, b, out);
+                out.push(')');
+            }
+            Regex::Paren(Some(b)) => {
+                out.push_str("(paren ");
+                rx(g, b, out);
+                out.push(')');
+            }
+            Regex::Paren(None) => out.push_str("(paren)"),
+            other => out.push_str(&format!("{other:?}")),
+        }
+    }
+    let mut s = String::new();
+    for d in g.decls() {
+        match d {
+            Decl::Tokens(ts) => {
+                s.push_str("token");
+                for t in ts {
+                    s.push_str(&format!(" {}={:?}", g.tokens[t].name, g.tokens[t].symbol));
+                }
+            }
+            Decl::Skip(ts) => {
+                s.push_str("skip");
+                for (t, y) in ts {
+                    s.push_str(&format!(" {}{}", g.tokens[t].name, if y { "'" } else { "" }));
+                }
+            }
+            Decl::Right(ts) => {
+                s.push_str("right");
+                for (t, y) in ts {
+                    s.push_str(&format!(" {}{}", g.tokens[t].name, if y { "'" } else { "" }));
+                }
+            }
+            Decl::Start => s.push_str(&format!("start {}", g.rules[g.start].name)),
+            Decl::Part(rs) => {
+                s.push_str("part");
+                for r in rs {
+                    s.push_str(&format!(" {}", g.rules[r].name));
+                }
+            }
+            Decl::Rule(i) => {
+                let r = &g.rules[i];
+                s.push_str(&format!("rule {}{} ", r.name, if r.elided { "^" } else { "" }));
+                match &r.body {
+                    Some(b) => rx(g, b, &mut s),
+                    None => s.push_str("(empty)"),
+                }
+            }
+        }
+        s.push('\n');
+    }
+    s
+}
